@@ -13,7 +13,7 @@ def run(tier, seed, t0):
     if not okh:
         raise RuntimeError("harness build failed:\n" + outh[-3000:])
     n = 600 if tier == "quick" else 6000
-    rows = L.run_stream("client", seed, n)
+    rows = L.run_stream("client", seed, n, prop=PROP)
     distinct = set()
     for sess, obs, ref in rows:
         bad = L.session_oracles(sess, obs, ref, {PROP})
